@@ -956,8 +956,17 @@ func runCase(c Case) (out outcome) {
 			return out
 		}
 	}
+	for _, q := range debugQueries {
+		fmt.Printf("DEBUG %s\n  model: %s\n", q, r.dumpModel())
+		for i := 0; i < 2; i++ {
+			res := r.node(i).Exec(q)
+			fmt.Printf("  node %d: %s %v %.300s\n", i, hx.Canon(res.Data), res.Errors, res.Panic)
+		}
+	}
 	return out
 }
+
+var debugQueries []string
 
 func run(c Case) *hx.Failure {
 	return hx.Guard("C07", func() *hx.Failure {
